@@ -9,7 +9,7 @@ from .contracts import REGISTRY
 from .core import State, fresh_name
 from .expr import KIND_OF_TYPE, OK, RAISE, ExprMixin, Rec, _mentions
 from .universe import LISTLIKE, SINGLETONS
-from .vals import BM, Builtin, Cls, Fn, It, Mod, Mt, Star, SuperProxy, T, Tup, Unsupported
+from .vals import BM, Builtin, Cls, Fn, It, Mod, Mt, PyMap, Star, SuperProxy, T, Tup, Unsupported
 
 SPEC_PRIMS = {
     "is_none", "is_bool", "is_int", "is_float", "is_num", "is_str", "is_arr", "is_obj", "is_nothing", "is_nodelist",
@@ -42,7 +42,58 @@ class CallMixin(ExprMixin):
                 return self.quantifier(f.name, node.args[0], s)
             return self.ev_seq(node.args, s, k_args)
 
+        cc = self.cur_contract
+        if (st.mode == "code" and cc is not None and getattr(cc, "dispatch", None) and isinstance(node.func, ast.Subscript)
+                and ast.unparse(node.func.value) in cc.dispatch and not node.keywords and self.fn_key_inner is None):
+            return self.table_dispatch(node, cc.dispatch[ast.unparse(node.func.value)], st)
         return self.bind(self.ev(node.func, st), k_func)
+
+    def init_table(self, cls, attr):
+        """[(key expression, method name)] of the dict literal `self.<attr> = {K: self.m, ...}` in cls.__init__ (the table is
+        assigned once there and nowhere else: pyvc/parseframe.py checks that on the AST)"""
+        ci = self.U.src.classes[cls]
+        init = ci.methods.get("__init__")
+        for n in ast.walk(init):
+            tg = None
+            if isinstance(n, ast.Assign) and len(n.targets) == 1:
+                tg, val = n.targets[0], n.value
+            elif isinstance(n, ast.AnnAssign) and n.value is not None:
+                tg, val = n.target, n.value
+            if tg is not None and isinstance(tg, ast.Attribute) and isinstance(tg.value, ast.Name) and tg.value.id == "self" and tg.attr == attr:
+                if not isinstance(val, ast.Dict):
+                    raise Unsupported(f"table {attr} is not a dict literal")
+                out = []
+                for k, v in zip(val.keys, val.values):
+                    if not (isinstance(v, ast.Attribute) and isinstance(v.value, ast.Name) and v.value.id == "self"):
+                        raise Unsupported(f"table {attr}: value is not a bound method of self")
+                    out.append((k, v.attr))
+                return out
+        raise Unsupported(f"no table {attr} in {cls}.__init__")
+
+    def table_dispatch(self, node, attr, st):
+        """self.table[key](args): one path per entry the key can equal (the method of that entry is called through its own
+        contract), and the KeyError path"""
+        table = self.init_table(self.cur_class, attr)
+        recv = st.env.get("self")
+
+        def k_key(key, s):
+            def k_args(avals, s2):
+                kt = self.box(key)
+                out = []
+                rest = s2
+                for kexpr, mname in table:
+                    kv = self.box(self.const_eval(kexpr, self.cur_module))
+                    hit = rest.fork(kt == kv)
+                    if self.feasible(hit):
+                        out.extend(self.call_method(BM(recv, mname), avals, {}, hit, node))
+                    rest = rest.fork(kt != kv)
+                if self.feasible(rest):
+                    out.extend(self.raise_(rest, "KeyError"))
+                return out
+
+            return self.ev_seq(node.args, s, k_args)
+
+        return self.bind(self.ev(node.func.slice, st), k_key)
 
     def expand_stars(self, args):
         out = []
@@ -373,6 +424,9 @@ class CallMixin(ExprMixin):
             return z3.BoolVal(n in U.src.mro(x.cls))
         if not (isinstance(x, T) and x.kind == "V"):
             return z3.BoolVal(False)
+        if (z3.is_app(x.t) and x.t.decl().kind() == z3.Z3_OP_DT_CONSTRUCTOR and x.t.decl().name().startswith("C_")
+                and n in U.src.classes and not U.src.classes[n].is_enum and n not in U.exc_id):
+            return z3.BoolVal(n in U.src.mro(x.t.decl().name()[2:]))  # an explicitly constructed object: its class is known
         if n in U.exc_id:
             return U.isinstance_exc(x.t, n)
         if n in U.src.classes and U.src.classes[n].is_enum:
@@ -680,6 +734,21 @@ class CallMixin(ExprMixin):
             return self.consume(args[0], st, "nodelist")
         if cname in ("list", "tuple", "str", "bool", "slice"):
             return getattr(self, "bi_" + cname)(args, kwargs, st)
+        if cname == "float" and len(args) == 1 and not kwargs and st.mode == "code":
+            # float(x): over-approximated -- ValueError (text that is not a number), or SOME float determined by the argument
+            a0 = args[0]
+            if isinstance(a0, T) and a0.kind in ("real", "int"):
+                return self.ok(T("real", self.real_term(a0)), st)
+            r = self.uf("py_float_of", self.V, z3.RealSort())(self.box(a0))
+            okc = self.uf("py_float_ok", self.V, z3.BoolSort())(self.box(a0))  # the same argument behaves the same way twice
+            return self.split(st, okc, lambda a: self.ok(T("real", r), a), lambda b: self.raise_(b, "ValueError"))
+        if cname == "int" and len(args) == 1 and not kwargs and st.mode == "code":
+            # int(x): over-approximated -- OverflowError (infinity), ValueError (nan / bad text), or SOME int determined by the argument
+            a0 = args[0]
+            if isinstance(a0, T) and a0.kind == "int":
+                return self.ok(a0, st)
+            r = self.uf("py_int_of", self.V, z3.IntSort())(self.box(a0))
+            return self.ok(self.int_(r), st) + self.raise_(st, "ValueError") + self.raise_(st, "OverflowError")
         if cname == "frozenset" and len(args) == 1 and not kwargs:
             # frozenset([c1, c2, ...]) of an explicit list: used for membership tests only -- kept as the tuple of its items
             a0 = args[0]
@@ -845,6 +914,10 @@ class CallMixin(ExprMixin):
         U = self.U
         src = U.src
         recv, name = bm.recv, bm.name
+        if isinstance(recv, PyMap):
+            if name == "get" and len(args) in (1, 2):
+                return self.pymap_lookup(recv, args[0], st, (args[1] if len(args) == 2 else T("V", U.none),))
+            raise Unsupported(f"method .{name}() on a constant table")
         if isinstance(recv, Mt):
             if name == "group" and not args:
                 g = z3.SubString(recv.q, recv.pos, recv.r)
